@@ -251,7 +251,7 @@ DATA_BODIES = ["text/html,<script>alert(1)</script>", "text/html;base64,PHNjcmlw
                "image/jpeg+a.b-c,x", "image/png+,x", "text/plain;+xml,x", "image/png.x,x", "image/png-x;base64,x", "text/html&#44;x", "text\t/html,x", "text/html\n,x", "image/png;text/html,x", "text/html", "x-foo/bar,x", "text/plain;charset=utf-8,<b>"]
 URI_ATTRS = ["href", "src", "action", "cite", "longdesc", "poster", "background", "ping", "xlink:href", "xml:base", "datasrc", "dynsrc", "lowsrc", "formaction", "data", "codebase", "manifest", "icon", "usemap", "profile"]
 URI_TAGS = ["a", "img", "form", "q", "video", "body", "svg", "iframe", "object", "embed", "input", "button", "blockquote", "area", "link", "base", "audio", "source", "table", "td", "del", "ins", "math", "use", "image", "script", "x"]
-CSS_DECLS = ["color: url( )", "color: url(1 2)", "cursor: url( 1, 2 )", "color: url ( )", "color: url(", "color: url(1", "color: url(1) url(2 3)",
+CSS_DECLS = ["cursor: URL(1)", "color: Url( 1 )", "width: URL(1, 2)", "color: uRL(12)", "color: url( )", "color: url(1 2)", "cursor: url( 1, 2 )", "color: url ( )", "color: url(", "color: url(1", "color: url(1) url(2 3)",
              "color: url (1)", "cursor: url (1)", "color: url( 1 )", "background: px", "margin: em",
              "background: url(1)", "background: url (1)", "background: url( 1 )", "list-style: URL(2)", "border: 1px evil", "margin: evil", "padding: 1px evil solid", "border: 1px solid red; margin: evil",
              "color: red", "color:red;", "position: fixed", "behavior: url(x.htc)", "background: url(javascript:alert(1))", "background-image:url(x)", "width: expression(alert(1))", "-moz-binding:url(x)",
